@@ -67,6 +67,7 @@ func main() {
 	failOpen := fl.Bool("failopen", false, "a failing Open attempt (injected fs error) before some images are reopened")
 	noPin := fl.Bool("nopin", false, "seq: every second program runs with pogreb's own random hash seeds")
 	holdBG := fl.Bool("holdbg", false, "stress: park the background compaction at its first yield point and call Close meanwhile")
+	walStates := fl.Bool("walstates", false, "strict mode: log the projected state of the write-ahead log after every call (spec/TraceWal.tla)")
 	in := fl.String("in", "", "program file (ndjson) to replay instead of random programs")
 	fl.Parse(os.Args[2:])
 	t0 := time.Now()
@@ -189,7 +190,7 @@ func main() {
 				h.PinSeed(ks.Seed)
 			}
 			var r *h.Runner
-			rp := h.RunParams{Mode: "seq", Seed: *seed + int64(i), Probe: len(keys) > 16, FullEvery: 25, Alt: *alt, Hold: *hold}
+			rp := h.RunParams{Mode: "seq", Seed: *seed + int64(i), Probe: len(keys) > 16, FullEvery: 25, Alt: *alt, Hold: *hold, WalStates: *walStates}
 			if pogreb.VerifPinnedSeed == nil {
 				rp.HashSeed = 1 // recorded as "not pinned"
 			}
